@@ -88,7 +88,7 @@ def k1(ctx, kr):
     def st_with_capacity(M, fr, callee, a):
         sx = Str([]); c = simp(a[0])
         lens = st.get('len', {})
-        sx.cap = 'file-bytes' if any(is_sym(c) and c.eq(v) for v in lens.values()) else ('enough' if isinstance(c, Opaque) and c.tag == 'max_utf8_buffer_length' else 'other')
+        st.setdefault('caps', {})[id(sx)] = (sx, 'file-bytes' if any(is_sym(c) and c.eq(v) for v in lens.values()) else ('enough' if isinstance(c, Opaque) and c.tag == 'max_utf8_buffer_length' else 'other'))
         return sx
     def st_max_len(M, fr, callee, a): return some(Opaque('max_utf8_buffer_length')) if 'checked' in callee or callee.endswith('max_utf8_buffer_length') else Opaque('max_utf8_buffer_length')
     def st_decode_to_string(M, fr, callee, a):
@@ -99,7 +99,7 @@ def k1(ctx, kr):
         dstv = M.deref(dst)
         text, bad = _decode_contract(M, dec.name.split('::')[-1], st['enc'], method, part)
         st['used'].append((dec.name.split('::')[-1], 'Decoder::decode_to_string'))
-        cap = getattr(dstv, 'cap', 'other')
+        cap = st.get('caps', {}).get(id(dstv), (None, 'other'))[1]
         enc = st['enc']
         if cap == 'enough': fits = True
         elif cap == 'file-bytes': fits = True if enc in ('utf8', 'utf8-bom') else (False if enc.startswith('windows1252') else M.branch(M.fresh_bool('utf16_text_fits')))
